@@ -618,6 +618,9 @@ bool valid(const St &s, const Op &op)
             return false;
         }
         Sel sel = selectFor(s, op);
+        if (op.verb == REPL_IDX && sel.cands.size() == 1 && sel.cands[0] == op.y) {
+            return true; // a child replaced by itself BY INDEX (c = p->component(i); edit c; p->replaceComponent(i, c)): nothing may change.  By pointer or name the library may match a structurally equal sibling first, which is the excluded case below.
+        }
         for (int t : sel.cands) {
             if (s.parent[t] >= 0 && s.parent[t] == s.parent[op.y]) {
                 return false; // the replacement is already held by that container: outside the claim
@@ -649,6 +652,10 @@ void finish(std::vector<Alt> &alts)
 void replaceAlts(const St &s, LK lk, int old, int Y, std::vector<Alt> &alts)
 {
     int Q = s.parent[old];
+    if (Y == old) {
+        alts.push_back({s, 1, std::string("replaced ") + label[old] + " by itself: nothing changes"});
+        return;
+    }
     if (lk == L_COMP && isAncestorOrSelf(s, Y, Q)) {
         alts.push_back({s, 0, "refused (replacement is the container or one of its ancestors)"});
         return;
@@ -858,6 +865,9 @@ std::string relClass(const St &s, LK lk, int P, int X, bool deep)
 }
 std::string newClass(const St &s, LK lk, int P, int Y, const Sel &sel)
 {
+    if (sel.cands.size() == 1 && sel.cands[0] == Y) {
+        return "itself"; // the replacement is the very child being replaced
+    }
     if (lk == L_COMP) {
         if (Y == P) {
             return "self";
@@ -1453,8 +1463,8 @@ long applyReal(Uni &u, const Op &op)
 }
 
 // ---------------------------------------------------------------- start states
-const int NSTART = 6;
-const char *const startName[NSTART] = {"empty", "twins", "two-models", "chain", "twins-children-released", "two-models-intermediates-released"};
+const int NSTART = 7;
+const char *const startName[NSTART] = {"empty", "twins", "two-models", "chain", "twins-children-released", "two-models-intermediates-released", "equivalence-star-first-member-destroyed"};
 
 void buildStart(Uni &u, int which)
 {
@@ -1514,6 +1524,20 @@ void buildStart(Uni &u, int which)
                 u.release(id);
             }
         }
+        break;
+    case 6:
+        // V0 is equivalent to V1, V2, V3 (added in that order); V1 belongs to nothing and is then destroyed, so V0's
+        // list starts with an expired entry
+        M(0)->addComponent(C(0));
+        M(0)->addComponent(C(2));
+        M(0)->addComponent(C(3));
+        C(0)->addVariable(V(0));
+        C(2)->addVariable(V(2));
+        C(3)->addVariable(V(3));
+        Variable::addEquivalence(V(0), V(1));
+        Variable::addEquivalence(V(0), V(2));
+        Variable::addEquivalence(V(0), V(3));
+        u.release(V_BASE + 1);
         break;
     case 3:
         M(0)->addComponent(C(0));
